@@ -146,7 +146,7 @@ theorem mem_setMacro {ms : List MacroDef} {m x : MacroDef} (h : x ∈ setMacro m
 theorem G_setMacros {nroot : Nat} {s : PState} (hg : G T nroot s) (m : MacroDef) (hm : macroToksOk T m = true) :
     G T nroot { s with macros := setMacro s.macros m } := by
   refine { flows := hg.flows, macros := ?_, envs := hg.envs, gloss := hg.gloss, root := hg.root,
-           inFrame := hg.inFrame, items := hg.items, langs := hg.langs, rots := hg.rots }
+           inFrame := hg.inFrame, items := hg.items, langs := hg.langs, rots := hg.rots, unk := hg.unk }
   intro x hx
   rcases List.mem_append.mp hx with hx | hx
   · rcases mem_setMacro hx with hx | rfl
@@ -158,7 +158,7 @@ theorem G_setEnvs {nroot : Nat} {s : PState} (hg : G T nroot s) (m : MacroDef) (
     (he : envOk T m = true) :
     G T nroot { s with envs := setMacro s.envs m } := by
   refine { flows := hg.flows, macros := ?_, envs := ?_, gloss := hg.gloss, root := hg.root,
-           inFrame := hg.inFrame, items := hg.items, langs := hg.langs, rots := hg.rots }
+           inFrame := hg.inFrame, items := hg.items, langs := hg.langs, rots := hg.rots, unk := hg.unk }
   · intro x hx
     rcases List.mem_append.mp hx with hx | hx
     · exact hg.macros x (List.mem_append_left _ hx)
@@ -313,7 +313,7 @@ theorem G_setGloss {nroot : Nat} {s : PState} (hg : G T nroot s) (label : Str) (
     (he : ∀ kv ∈ e, ∀ ts, kv.2 = some ts → ∀ t ∈ ts, storedOk T t = true) :
     G T nroot { s with glossary := setGloss s.glossary label e } := by
   refine { flows := hg.flows, macros := hg.macros, envs := hg.envs, gloss := ?_, root := hg.root,
-           inFrame := hg.inFrame, items := hg.items, langs := hg.langs, rots := hg.rots }
+           inFrame := hg.inFrame, items := hg.items, langs := hg.langs, rots := hg.rots, unk := hg.unk }
   intro x hx
   simp only [setGloss] at hx
   split at hx
@@ -793,7 +793,7 @@ theorem handler_loadDefs (hh : HandlerArgs .loadDefs args) :
       rintro _ s1 rfl
       have hG0 : G0 T nroot { s with extracted := [] } :=
         { flows := fun _ e he => (by cases he), macros := hs.1.macros, envs := hs.1.envs, gloss := hs.1.gloss,
-          items := hs.1.items, langs := hs.1.langs, rots := hs.1.rots }
+          items := hs.1.items, langs := hs.1.langs, rots := hs.1.rots, unk := hs.1.unk }
       refine Post_bind _ _ _ _ _ (IH.work f.2 _ hG0 (fun h => absurd h hs.1.inFrame) hs.1.root)
         (fun toks s2 h2 => ?_)
       obtain ⟨hG2, hSame, hOL⟩ := h2
@@ -801,7 +801,7 @@ theorem handler_loadDefs (hh : HandlerArgs .loadDefs args) :
       · have e1 : s2.nest = s.nest := hSame.2
         have e2 : s2.latex = s.latex := hSame.1
         refine { flows := hs.1.flows, macros := hG2.macros, envs := hG2.envs, gloss := hG2.gloss,
-                 items := hG2.items, langs := hG2.langs, rots := hG2.rots, root := ?_, inFrame := ?_ }
+                 items := hG2.items, langs := hG2.langs, rots := hG2.rots, unk := hG2.unk, root := ?_, inFrame := ?_ }
         · intro h
           show s2.latex.length = nroot
           rw [e2]; exact hs.1.root (e1 ▸ h)
